@@ -86,8 +86,13 @@ def c15 (args res : List String) : Verdict :=
       let menc := encode v
       let mdec := valsTok (decodeImpl menc)
       let tag := match v with | .int _ => "rt-int" | .str _ => "rt-str" | .list _ => "rt-list" | .dict _ => "rt-dict"
-      if enc ≠ toHex menc then vDiff "encode" (toHex menc) tag
-      else if joinToks dec ≠ "ok " ++ vs then vProp "T1-decode-of-encode-differs" tag
+      -- oracles on the implementation's own output first: its encoding must decode (strictly) to the value, and be
+      -- the canonical text (ascending keys, shortest integers) = the model encoder's output
+      let implEnc := parseHex enc
+      let strictOfImpl := implEnc.bind decodeStrict
+      if joinToks dec ≠ "ok " ++ vs then vProp "T1-decode-of-encode-differs" tag
+      else if (strictOfImpl.map valsTok) ≠ some ("ok " ++ vs) then vProp "T2-emitted-text-is-not-a-well-formed-encoding-of-the-value" tag
+      else if enc ≠ toHex menc then vProp "T2-emitted-text-is-not-canonical" tag
       else if joinToks dec ≠ mdec then vDiff "decode" mdec tag
       else vOk tag
     | _ => vBad vs
